@@ -325,3 +325,17 @@ def mm_deposits_single():
                         deposit_legacy(old(state).network, old(state).height), final(state).pools@, final(state).coins@.coins, minted)""", "C15", "C16", "C01"),
                  C("frame", "pool_phase_frame(*old(state), *final(state)) && final(state).fee_pool == old(state).fee_pool", "C15", "C17"),
                  C("inv", "final(state).coins.wf() && (spec_tip906(*old(state)) ==> counts_ok(final(state).coins@)) && origin_ok(final(state).coins@.coins) && (!spec_tip906(*old(state)) ==> final(state).coins@.counts == old(state).coins@.counts)", "C20")])
+
+def mm_withdrawals_single():
+    return dict(
+        requires=[C("reqs", "withdrawals_pre(old(relevant_txx)@, *pool)"),
+                  C("pool", "old(state).pools@.contains_key(*pool)"),
+                  C("backed", "true_sum(out_vals(old(relevant_txx)@, 0), old(relevant_txx)@.len() as int) <= old(state).pools@[*pool].liqs",
+                    note="C16 backing invariant as a precondition: the liquidity tokens redeemed in a block do not exceed the pool's recorded liquidity (PoolState::withdraw asserts it). Established step by step by deposits_result (shares <= minted) and by this function (exactly the redeemed amount is retired); the induction over histories is not mechanised"),
+                  C("fresh1", "forall|i: int| 0 <= i < old(relevant_txx)@.len() ==> !old(state).coins@.coins.contains_key(cid(#[trigger] old(relevant_txx)@[i], 1))",
+                    note="state invariant assumed: a one-output withdrawal request has no coin under index 1 yet (a transaction enters the chain once)"),
+                  C("inv", "old(state).coins.wf() && (spec_tip906(*old(state)) ==> counts_ok(old(state).coins@)) && origin_ok(old(state).coins@.coins)")],
+        ensures=[C("result", """exists|wl: int, wr: int| #[trigger] withdrawals_result(old(state).pools@, old(state).coins@.coins, old(relevant_txx)@, *pool, old(state).height,
+                        final(state).pools@, final(state).coins@.coins, wl, wr)""", "C15", "C16", "C01"),
+                 C("frame", "pool_phase_frame(*old(state), *final(state)) && final(state).fee_pool == old(state).fee_pool", "C15", "C17"),
+                 C("inv", "final(state).coins.wf() && (spec_tip906(*old(state)) ==> counts_ok(final(state).coins@)) && origin_ok(final(state).coins@.coins) && (!spec_tip906(*old(state)) ==> final(state).coins@.counts == old(state).coins@.counts)", "C20")])
